@@ -635,7 +635,7 @@ def model_fingerprints(report):
 
 def string_fragment(report, uri_consts, shape_consts):
     """fragment S: string functions -> lean/ShexerModel/GeneratedStr.lean (namespace Shexer.GenS). A function that no longer
-    translates is simply absent, so the equivalence theorems of Props/GenStr.lean stop building: a broken obligation."""
+    translates is simply absent, so the equivalence theorems of Props/GenStr{Corners,Literal,ShapeName}.lean stop building: a broken obligation."""
     import extract_str as XS
     out = ["import ShexerModel.Base.PyOps",
            "/-! GENERATED by harness/extract.py (fragment S) from /repo's Python AST - do not edit. -/",
